@@ -20,7 +20,7 @@ LEVEL_NOTE = "f4 encodings compared at 2e-6 relative, f8/i4 exactly. Trusts netC
 RULE = ("case = (dt, steps, period, numrec, layout, reference, release steps and sizes, IBM kill schedule, particle variables or not, lon/lat or not, encoding, moving water). "
         "Non-trivial: at least one death or a late release so that record sizes change; distinct by the whole parameter tuple.")
 MANDATORY = ["sparse", "dense", "empty_record", "highest_pids_dead_at_file_end", "all_dead_at_end", "late_first_release", "multifile", "explicit_reference",
-             "particle_variables", "lonlat_output", "f4_encoding", "records_compared", "dense_lonlat_with_deaths"]
+             "particle_variables", "lonlat_output", "f4_encoding", "records_compared", "dense_lonlat_with_deaths", "warm_started_run_checked"]
 ASSUMPTIONS = ["durations are multiples of the time step; residues of steps modulo the period are C07's subject but occur here too"]
 TIMEOUT = {"quick": 900, "thorough": 3000}
 
@@ -51,7 +51,7 @@ def gen_case(seed: int, idx: int) -> dict[str, Any]:
                 reference=None if rng.random() < 0.5 else str(C.tadd_iso(C.T0, -int(rng.integers(0, 10**6)))),
                 releases=releases, kills=kills, pvars=bool(rng.random() < 0.7), lonlat=lonlat,
                 enc="f4" if rng.random() < 0.4 else "f8", speed=float(rng.choice([0.0, 0.05, 0.11])),
-                continuous=int(rng.choice([0, 0, 0, 1, 2])))
+                continuous=int(rng.choice([0, 0, 0, 1, 2])), warm=bool(idx % 4 == 1))
 
 
 def gen_cases(tier: str, seed: int) -> list[dict[str, Any]]:
@@ -79,6 +79,7 @@ def run_case(case: dict[str, Any], wd: Path) -> dict[str, Any]:
     deaths = any(b < a for a, b in zip(sizes, sizes[1:])) or any(len(s["alive_pids"]) < s["nstate"] for s in snaps)
     sit["dense_lonlat_with_deaths"] = int(case["layout"] == "dense" and case["lonlat"] and deaths)
     sit["records_compared"] = cnt.get("records_compared", 0)
+    sit["warm_started_run_checked"] = cnt.get("warm_runs", 0)
     key = str({k: v for k, v in case.items() if k not in ("idx", "salt")})
     sample = dict(params={k: v for k, v in case.items() if k != "salt"}, record_sizes=sizes, files=[f.path.name for f in out["files"]])
     if not res.ok:
